@@ -262,7 +262,19 @@ fn read_array(ctx: &mut Context, h: &str) -> Option<Vec<String>> {
 
 fn case_strings(t: &mut Tape, st: &mut Stats) -> Verdict {
     let mut ctx = sdk_context();
-    let s = text(t, 10);
+    let mut s = text(t, 10);
+    // one text in a hundred and fifty is long: a filler character repeated to 16..200 KiB in front of the generated text
+    let long = t.chance(1, 150);
+    if long {
+        let filler = *t.pick_ref(&["x", "é", "日", "-", "ab"]);
+        let target = 16_000 + t.below(190_000);
+        let mut f = String::with_capacity(target + 8);
+        while f.len() < target {
+            f.push_str(filler);
+        }
+        s = format!("{}{}", f, s);
+        st.class("text-of-16-to-200-KiB");
+    }
     // needle: a real substring, a longer string, or unrelated
     let chars: Vec<(usize, char)> = s.char_indices().collect();
     let needle = match t.weighted(&[5, 2, 1, 1]) {
@@ -365,6 +377,10 @@ fn case_strings(t: &mut Tape, st: &mut Stats) -> Verdict {
             }
         }
         9 => {
+            if long && (needle.is_empty() || naive_split(&s, &needle).len() > 3000) {
+                // reading tens of thousands of pieces back one by one is not worth the time
+                return Verdict::Pass(None);
+            }
             let args = vec![a(&s), a(&needle)];
             let r = exec(&mut ctx, "split", &args);
             let h = match val(&r) {
@@ -712,7 +728,7 @@ fn case_kept(t: &mut Tape, st: &mut Stats) -> Verdict {
 pub fn property() -> Property {
     Property {
         id: "C16",
-        rule: "(substring-grid) EXHAUSTIVE: 12 strings of <= 6 bytes incl. 2-, 3- and 4-byte characters and combining marks x all forms (no index, one index, two indexes) x every index (pair) in [-len-2, len+2] plus non-numeric indexes; in-range requests on character boundaries must return the slice, out-of-domain requests the error result; (strings) random texts over ASCII/multi-byte alphabets with needles drawn as real substrings, longer than the haystack, unrelated or empty: length/indexof/last_indexof/contains/starts_with/ends_with/equals/is_empty/concat/replace/split/trim*/uppercase/lowercase against byte-level naive references, plus the relations substring(s,0,indexof(s,t))+t is a prefix of s, length of a slice, split joined by the separator gives s; (numbers) less_than/greater_than on exactly known decimal values in several spellings incl. pairs differing in the last digit, pairs of tiny magnitude (down to 1e-22, differing by as little as 1e-22) and non-numeric operands; (calc) expression trees over + - * with parentheses, exact integer division, dyadic decimals and products of large powers of two (results up to 2^120) compared exactly; (range) half-open interval, start>end and non-numeric rejected; (kept-results) 2..5 split / range calls in one script run writing to a pool of two output variables, each result kept under a further variable: at the end of the run every kept array still holds the pieces / interval of its own call. Non-trivial: multi-byte text or non-empty needle / index within the grid; distinct by arguments",
+        rule: "(substring-grid) EXHAUSTIVE: 12 strings of <= 6 bytes incl. 2-, 3- and 4-byte characters and combining marks x all forms (no index, one index, two indexes) x every index (pair) in [-len-2, len+2] plus non-numeric indexes; in-range requests on character boundaries must return the slice, out-of-domain requests the error result; (strings) random texts over ASCII/multi-byte alphabets (one in a hundred and fifty 16..200 KiB long) with needles drawn as real substrings, longer than the haystack, unrelated or empty: length/indexof/last_indexof/contains/starts_with/ends_with/equals/is_empty/concat/replace/split/trim*/uppercase/lowercase against byte-level naive references, plus the relations substring(s,0,indexof(s,t))+t is a prefix of s, length of a slice, split joined by the separator gives s; (numbers) less_than/greater_than on exactly known decimal values in several spellings incl. pairs differing in the last digit, pairs of tiny magnitude (down to 1e-22, differing by as little as 1e-22) and non-numeric operands; (calc) expression trees over + - * with parentheses, exact integer division, dyadic decimals and products of large powers of two (results up to 2^120) compared exactly; (range) half-open interval, start>end and non-numeric rejected; (kept-results) 2..5 split / range calls in one script run writing to a pool of two output variables, each result kept under a further variable: at the end of the run every kept array still holds the pieces / interval of its own call. Non-trivial: multi-byte text or non-empty needle / index within the grid; distinct by arguments",
         assumptions: &[
             "substring with an end index equal to the length (and a start index equal to the length in the one-index form) is left unconstrained",
             "values are free of '$', '%' and backslash; calc expressions avoid inexact division, overflow and mixed int/float division",
@@ -726,7 +742,7 @@ pub fn property() -> Property {
                     Tier::Thorough => Plan::Random { cases: 12_000_000, max_len: 80 },
                 },
                 case: case_strings,
-                min_classes: &[("multibyte-haystack", 10000), ("needle-longer-than-haystack", 1000), ("prefix-relation-checked", 2000), ("split-join-relation-checked", 2000)],
+                min_classes: &[("multibyte-haystack", 10000), ("needle-longer-than-haystack", 1000), ("prefix-relation-checked", 2000), ("split-join-relation-checked", 2000), ("text-of-16-to-200-KiB", 500)],
             },
             Section {
                 name: "numbers",
